@@ -411,6 +411,17 @@ def gen_leaf(rng, dtype, small=True):
 STR_ALPHABET = "abAB z"
 
 
+LONG_P = 0.03
+
+
+def toplen(rng, lo, hi):
+    """length of the outermost dimension: small, sometimes long (see LONG_P)"""
+    n = rng.randint(lo, hi)
+    if rng.random() < LONG_P:
+        n = rng.randint(8, 18)
+    return n
+
+
 def gen_value(rng, T, maxlen=3, none_p=0.3):
     k = T[0]
     if k == "num":
@@ -420,7 +431,10 @@ def gen_value(rng, T, maxlen=3, none_p=0.3):
         txt = "".join(rng.choice(STR_ALPHABET) for _ in range(n))
         return txt if T[1] == "string" else txt.encode()
     if k == "list":
-        return [gen_value(rng, T[1], maxlen, none_p) for _ in range(rng.randint(0, maxlen))]
+        n = rng.randint(0, maxlen)
+        if rng.random() < LONG_P:
+            n = rng.randint(8, 18)      # long enough to reach every bit position and a second mask byte
+        return [gen_value(rng, T[1], maxlen, none_p) for _ in range(n)]
     if k == "regular":
         return [gen_value(rng, T[1], maxlen, none_p) for _ in range(T[2])]
     if k == "option":
